@@ -51,8 +51,11 @@ inline std::string checkSavedFile(const ezc3d::c3d &obj, const std::string &path
     // data start pointers
     const size_t realDataBlock = static_cast<size_t>(f.paramBlock) + needBlocks;   // 1-based
     if (f.h.dataStart != realDataBlock) return "header word 9 (data start) is " + std::to_string(f.h.dataStart) + " but the data section starts at block " + std::to_string(realDataBlock);
-    if (d.pointDataStart < 0) return "POINT:DATA_START missing";
-    if (static_cast<size_t>(d.pointDataStart) != realDataBlock) return "POINT:DATA_START is " + std::to_string(d.pointDataStart) + " but the data section starts at block " + std::to_string(realDataBlock);
+    {   // (an object loaded from a file without POINT:DATA_START keeps being without it: then there is nothing to point anywhere)
+        const SParam *ds = findParam(mem, "POINT", "DATA_START");
+        if (d.pointDataStart < 0 && ds && ds->type == 2) return "POINT:DATA_START missing in the saved file";
+    }
+    if (d.pointDataStart >= 0 && static_cast<size_t>(d.pointDataStart) != realDataBlock) return "POINT:DATA_START is " + std::to_string(d.pointDataStart) + " but the data section starts at block " + std::to_string(realDataBlock);
     // names upper case, locks as negative lengths (decoded into flags): compare with memory
     for (auto &r : f.recs) if (r.name != upper(r.name)) return "name stored in lower case: " + r.name;
     // header vs parameters
